@@ -173,9 +173,14 @@ Step(s) == LET d == Do([eps |-> eps, chan |-> chan], s) IN
            /\ hist' = IF EMIT THEN Append([i \in 1..Len(hist) |-> [f \in DOMAIN hist[i] \ {"p"} |-> hist[i][f]]], d.last) ELSE hist
            /\ src' = IF EMIT THEN <<eps, chan>> ELSE src
 
+\* a call of a scenario alphabet marked nf is made without the application taking the output afterwards: what it wrote stays in
+\* the connection's buffer (ep.out) until a later step takes it
+StepOfCall(x, c) == IF "nf" \in DOMAIN c THEN [a |-> "call", x |-> x, c |-> [f \in DOMAIN c \ {"nf"} |-> c[f]], nf |-> TRUE]
+                    ELSE [a |-> "call", x |-> x, c |-> c]
+Held(c) == c @@ [nf |-> TRUE]
 Next == TLCGet("level") < MaxDepth /\
   \E x \in Roles :
-     \/ \E c \in CallsOf(x) : Step([a |-> "call", x |-> x, c |-> c])
+     \/ \E c \in CallsOf(x) : Step(StepOfCall(x, c))
      \/ \E fs \in AdvOf(x) : Step([a |-> "recv", x |-> x, fs |-> fs])
      \/ Pair /\ \E k \in 1..Min(MaxK, Len(chan[x])) : Step([a |-> "dlv", x |-> x, k |-> k])
 
@@ -198,7 +203,9 @@ ProtocolErrors == H2Exceptions \ {"RFC1122Error"}
 \* C29 / C01: a public call that raises adds no bytes to the output
 \* (known finding upgrade_raises_after_preamble: initiate_upgrade_connection emits the preamble before it can fail)
 \* (known finding header_frame_exceeds_limit: the frame-size assertion fails after the frames were written)
-RaisingCallEmitsNothing == (IsCall /\ last.p.r.c # "ok") =>
+\* (o is what the step itself wrote unless it also handed over frames that earlier steps had left in the buffer)
+OwnOutput == src = <<>> \/ IsAp(last) \/ src[1][last.x].out = <<>>
+RaisingCallEmitsNothing == (IsCall /\ last.p.r.c # "ok" /\ OwnOutput) =>
                               (last.p.o = <<>> \/ Excused({"upgrade_raises_after_preamble", "header_frame_exceeds_limit"}))
 \* C29 / C17: only documented exception classes
 OnlyKnownExceptions ==
@@ -249,7 +256,7 @@ P_C01_DeliveredSendsAccepted ==
 P_C13_CleanSendsDecode == \A x \in Roles : eps[x].hd => "failed_send_partial_state" \in eps[x].dev
 \* C02: no emitted DATA frame is larger than the peer's MAX_FRAME_SIZE in force when it was sent
 P_C02_FramesWithinLimits ==
-  HasSrc => \A i \in 1..Len(OutF) :
+  (HasSrc /\ OwnOutput) => \A i \in 1..Len(OutF) :
      /\ OutF[i].t = "DATA" => FclOf(OutF[i]) <= Pre.mof
      \* header blocks: every frame within the limit, no empty CONTINUATION behind a full frame
      /\ "sizes" \in DOMAIN OutF[i] =>
@@ -262,7 +269,7 @@ P_C03_SendWithinWindows ==
      LET fsz == FclOf(last.c)
          w == Min(Pre.ow, Pre.streams[last.c.sid].ow)
      IN /\ ROk => fsz <= w
-        /\ fsz > w => (last.p.r.c = "FlowControlError" /\ OutF = <<>>)
+        /\ fsz > w => (last.p.r.c = "FlowControlError" /\ (OwnOutput => OutF = <<>>))
         /\ ROk => (Post.ow = Pre.ow - fsz /\ Post.streams[last.c.sid].ow = Pre.streams[last.c.sid].ow - fsz)
 P_C03_WindowsBounded ==
   \A x \in Roles : eps[x].ow <= MAXW /\ \A sid \in DOMAIN eps[x].streams : eps[x].streams[sid].ow <= MAXW
@@ -353,7 +360,7 @@ P_C12_SettingsValidation ==
   /\ (HasSrc /\ IsCall /\ last.c.op = "set") =>
         /\ ROk => AllValid(last.c.s)
         /\ (AllValid(last.c.s) /\ <<Pre.conn, "SEND_SETTINGS">> \in DOMAIN ConnTable) => ROk
-        /\ ~AllValid(last.c.s) => OutF = <<>>
+        /\ (~AllValid(last.c.s) /\ OwnOutput) => OutF = <<>>
   /\ (OneFrame("SET") /\ ~last.fs[1].ack /\ <<Pre.conn, "RECV_SETTINGS">> \in DOMAIN ConnTable) =>
         LET fs == Collapse(last.fs[1].s) IN
         IF AllValid(fs) THEN last.p.r.c # "InvalidSettingsValueError"
@@ -424,6 +431,10 @@ P_C19_ClosedStaysQuiet ==
      /\ \A i \in 1..Len(OutF) : OutF[i].t = "GOAWAY"
      /\ Post.conn = "CLOSED"
      /\ (IsCall /\ last.c.op \in {"hdr", "data", "end", "inc", "push", "ping", "rst", "set", "alt", "prio"}) => ~ROk
+\* C19: a received GOAWAY discards whatever the application has not yet taken: with GOAWAY as the last frame of the input,
+\* nothing is handed over, whatever was waiting
+P_C19_GoAwayDiscardsOutput ==
+  (HasSrc /\ last.a = "recv" /\ ROk /\ ~NoFlush(last) /\ Len(last.fs) > 0 /\ last.fs[Len(last.fs)].t = "GOAWAY") => OutF = <<>>
 \* C20: frames on a locally reset stream are never connection errors and never produce events for it
 P_C20_ResetRacesAreStreamErrors ==
   (HasSrc /\ last.a = "recv" /\ Len(last.fs) = 1 /\ last.fs[1].t \in {"HEADERS", "DATA", "WU", "RST"}
